@@ -141,6 +141,34 @@ pub fn gen_c17(out: &mut Out, rng: &mut Rng, thorough: bool) {
             }
         }
     }
+    // slave selection histories that come *back*: to the slave the context was connected with, to
+    // the default, to the one before (re-selecting must not be lost)
+    for kind in ["tcp", "rtu"] {
+        for explicit in [false, true] {
+            let default_unit = if kind == "tcp" { 255 } else { 0 };
+            let s0 = rng.unit();
+            let (tok, u0) = if explicit { (hex8(s0), s0) } else { ("-".to_string(), default_unit) };
+            let s1 = loop {
+                let x = rng.u8();
+                if x != u0 {
+                    break x;
+                }
+            };
+            let pdu = [0x03u8, 0x02, 0x12, 0x34];
+            let mut line = format!("sync {kind} {tok} to=1500");
+            for (tid, u) in [u0, s1, u0, u0, s1, s1, u0].iter().enumerate() {
+                line.push_str(&format!(" | slave {} | call RHR:0001:0001 r=d{}", hex8(*u), hex_raw(&frame(kind, tid as u16, *u, &pdu))));
+            }
+            monitor_line(out, &line);
+            // the same without the very first explicit selection
+            let mut line = format!("sync {kind} {tok}");
+            line.push_str(&format!(" | call RHR:0001:0001 r=d{}", hex_raw(&frame(kind, 0, u0, &pdu))));
+            for (i, u) in [s1, u0, s1].iter().enumerate() {
+                line.push_str(&format!(" | slave {} | call RHR:0001:0001 r=d{}", hex8(*u), hex_raw(&frame(kind, i as u16 + 1, *u, &pdu))));
+            }
+            monitor_line(out, &line);
+        }
+    }
     // the asynchronous client over a real socket: `client::tcp::connect` / `connect_slave`
     // (the reference the blocking client is compared with must itself be what `attach` is)
     for explicit in [false, true] {
